@@ -1091,6 +1091,41 @@ fn is_k3(sxr: bool, p: &Program, j: usize, r: &compile::DocResult) -> bool {
         && p.docs.get(j).map_or(false, |d| has_ws_cdata_beside_children(&d.root))
 }
 
+/// K4: xml-rs reports the characters collected so far when it meets a processing instruction, so character data with
+/// a PI inside arrives as two `Characters` events; serde-xml-rs reads one and then expects the end tag
+fn is_k4(sxr: bool, p: &Program, j: usize, r: &compile::DocResult) -> bool {
+    fn pi_inside_text(n: &Node) -> bool {
+        let mut seen_text = false;
+        let mut pi_after_text = false;
+        let mut hit = false;
+        for it in &n.items {
+            match it {
+                Item::Text(_) | Item::CData(_) => {
+                    if pi_after_text {
+                        hit = true;
+                    }
+                    seen_text = true;
+                }
+                Item::PI(_) => {
+                    if seen_text {
+                        pi_after_text = true;
+                    }
+                }
+                Item::Elem(_) => {
+                    seen_text = false;
+                    pi_after_text = false;
+                }
+                _ => {}
+            }
+        }
+        hit || n.children().any(pi_inside_text)
+    }
+    sxr && known_listed("C13", "sxr-processing-instruction-inside-text")
+        && !r.ok
+        && r.err.contains("found Characters(")
+        && p.docs.get(j).map_or(false, |d| pi_inside_text(&d.root))
+}
+
 fn known_listed(prop: &str, sig: &str) -> bool {
     std::fs::read_to_string("/verif/known_findings.json")
         .ok()
@@ -1135,6 +1170,7 @@ pub fn eval_programs(sum: &mut Summary, programs: &[Program], sxr: bool, nbins: 
     let mut k1_hits = 0u64;
     let mut k2_hits = 0u64;
     let mut k3_hits = 0u64;
+    let mut k4_hits = 0u64;
     for (i, (p, r)) in programs.iter().zip(results.iter()).enumerate() {
         let mut per_doc = Vec::new();
         for j in 0..p.docs.len() {
@@ -1144,6 +1180,10 @@ pub fn eval_programs(sum: &mut Summary, programs: &[Program], sxr: bool, nbins: 
             if !ok && is_k3(sxr, p, j, &plain) && is_k3(sxr, p, j, &deny) {
                 ok = true;
                 k3_hits += 1;
+            }
+            if !ok && is_k4(sxr, p, j, &plain) {
+                ok = true;
+                k4_hits += 1;
             }
             let mut cap = plain.missing.is_empty() && deny.missing.is_empty();
             if !cap && is_k1(sxr, &plain) {
@@ -1172,6 +1212,10 @@ pub fn eval_programs(sum: &mut Summary, programs: &[Program], sxr: bool, nbins: 
     if k3_hits > 0 {
         let e = sum.extra.entry("known_hits_K3".to_string()).or_insert(json!(0));
         *e = json!(e.as_u64().unwrap_or(0) + k3_hits);
+    }
+    if k4_hits > 0 {
+        let e = sum.extra.entry("known_hits_K4".to_string()).or_insert(json!(0));
+        *e = json!(e.as_u64().unwrap_or(0) + k4_hits);
     }
     let verdicts = match driver::run(&lines) {
         Ok(v) => v,
@@ -1281,6 +1325,9 @@ pub fn check_compile(sum: &mut Summary, sxr: bool) {
     }
     if sum.extra.get("known_hits_K3").and_then(|v| v.as_u64()).unwrap_or(0) > 0 {
         hits.push("quick-xml-whitespace-cdata-beside-repeated-children");
+    }
+    if sum.extra.get("known_hits_K4").and_then(|v| v.as_u64()).unwrap_or(0) > 0 {
+        hits.push("sxr-processing-instruction-inside-text");
     }
     if !hits.is_empty() {
         sum.extra.insert("known_hits".into(), json!(hits));
@@ -1601,7 +1648,7 @@ pub fn replay(prop: &str, cv: &Value) -> i32 {
                     let mut sum = Summary::new(prop, "quick", 0, "replay");
                     eval_programs(&mut sum, &[p], sxr, 1, "replay");
                     if std::env::var("XSG_VERBOSE").is_ok() {
-                        println!("{}", serde_json::to_string_pretty(&json!({"verdicts": sum.verdicts, "gen": sum.gen_reasons, "extra": sum.extra, "samples": sum.samples})).unwrap_or_default());
+                        println!("{}", serde_json::to_string_pretty(&json!({"verdicts": sum.verdicts, "gen": sum.gen_reasons, "extra": sum.extra, "samples": sum.samples, "failures": sum.failures.iter().map(|f| f.case.clone()).collect::<Vec<_>>()})).unwrap_or_default());
                     }
                     for f in &sum.failures {
                         println!("{} {}", f.kind, f.what);
